@@ -243,7 +243,8 @@ def _props(t, elem):
 
 
 def _node_count(t):
-    g = t.graph_model.storage.extract_graph(t.graph_model.graph_id)
+    from fimverif.engines import store as _store
+    g = _store.observe_storage(t.graph_model.storage, t.graph_model.graph_id)
     return 0 if g is None else len(g.nodes)
 
 
